@@ -414,7 +414,7 @@ RULE = ("generated core-language programs rewritten on the AST by each rule (FOR
 
 
 def main(tier, seed):
-    params = {"n": 2400 if tier == "quick" else 60000, "sites_per_rule": 2 if tier == "quick" else 6}
+    params = {"n": 2400 if tier == "quick" else 40000, "sites_per_rule": 2 if tier == "quick" else 6}
     return driver.run_check(
         PID, shard, params, tier, seed,
         min_evaluations=8000 if tier == "quick" else 200000,
